@@ -26,6 +26,7 @@ func init() {
 			"PV-GUARD every matching field of the modifier is tested by BinOp; PF-IDX constant indices in the engine and parser are guarded",
 			"labels are cleared (the map stays usable) before each record",
 			"PF-NIL errors.As targets are addresses",
+			"FE-SIGN/PV-CONST (ruleTimeParams) the default step is floored at one second",
 		},
 		NotDecided: []string{
 			"termination of loops (lexer scanners, IPLineFilter, stepper – the last relies on C16's positivity for CLI callers)",
@@ -63,6 +64,7 @@ func init() {
 			ruleConstIndexGuarded(r, []string{enginePkg, logqlPkg}, 6)
 			ruleSetClearedPerRecord(r)
 			ruleErrorsAsTargets(r, []string{enginePkg, metricPkg, dockerlogPkg, cmdPkg, logqlPkg})
+			ruleTimeParams(r) // the default step is at least one second: the grid of a step-less query terminates
 		},
 	})
 }
